@@ -65,6 +65,8 @@ def run(tier, replay=None):
     tm["harness_build_and_run_s"] = round(time.time() - t, 1)
     t = time.time()
     res = json.load(open(os.path.join(ck.work, "result.json")))
+    if res["distribution"].get("failures_dropped_over_200"):
+        raise RuntimeError("harness c01 dropped failing inputs (more than 200 recorded): the per-signature cap is broken")
     for f in res["failures"]:
         ck.failure(f["signature"], f["what"], {"input": f["input"]})
     extra = res.get("extra", {})
